@@ -15,7 +15,8 @@
     regression examples. *)
 From Coq Require Import List ZArith Bool.
 From V Require Import Gen.Params Lib.Hex SendStream.Model SendStream.ProofsBase SendStream.ProofsInv
-  SendStream.ProofsCov SendStream.ProofsOut SendStream.ProofsFin SendStream.Theorems StreamE2E.Model StreamE2E.Compose.
+  SendStream.ProofsCov SendStream.ProofsOut SendStream.ProofsFin SendStream.Theorems StreamE2E.Model StreamE2E.Compose
+  StreamE2E.DgModel StreamE2E.DgProofs.
 Import ListNotations.
 Open Scope Z_scope.
 
@@ -92,6 +93,27 @@ Theorem C01_complete_if_covered :
   all_read rs' = W s /\ saw_eof rs' = true /\ finishedWriting s = true.
 Proof. exact complete_if_covered_e2e. Qed.
 Print Assumptions C01_complete_if_covered.
+
+(** Datagrams (model of /repo/datagram_queue.go, any op list of Add / parked-Add wake-up / Peek / Pop /
+    HandleDatagramFrame / Receive / Close): what Receive returned embeds into what was handled
+    (unmodified, in order, nothing twice); what Add accepted is exactly what was popped followed by
+    what is still queued (handed to the packer at most once, in order); the queues stay bounded. *)
+Theorem C01_datagram_at_most_once :
+  forall ops : list dop,
+  let q := fst (drun dq0 ops) in
+  let outs := snd (drun dq0 ops) in
+  subseq (recv_of (combine ops outs)) (gHandled q) /\
+  gAdded q = gPopped q ++ sendQ q /\
+  zlen (sendQ q) <= dgMaxSendQueueLen /\ zlen (rcvQ q) <= dgMaxRcvQueueLen.
+Proof. exact datagram_at_most_once. Qed.
+Print Assumptions C01_datagram_at_most_once.
+
+Example C01_datagram_nonvacuous :
+  let r := drun dq0 [DHandle [1]; DHandle [2]; DAdd [9]; DReceive; DPeek; DPop; DReceive; DReceive] in
+  snd r = [DNone; DNone; DAddOk; DData [1]; DData [9]; DNone; DData [2]; DEmpty] /\
+  gHandled (fst r) = [[1]; [2]] /\ gPopped (fst r) = [[9]].
+Proof. vm_compute. repeat split. Qed.
+Print Assumptions C01_datagram_nonvacuous.
 
 (** Non-vacuity: a history that satisfies every hypothesis above, with a split retransmission. *)
 Definition ex_ops : list op :=
